@@ -4,6 +4,7 @@ C.7 Mathematical Formulas (p187)
 """
 
 from plasTeX.Base.LaTeX.Arrays import Array
+from plasTeX.Base.TeX.Primitives import BoxCommand
 from plasTeX import Command, Environment, sourceChildren, NoCharSubEnvironment
 from plasTeX import DimenCommand, GlueCommand, TeXFragment
 from typing import Optional
@@ -690,7 +691,7 @@ class boldmath(Command):
 class unboldmath(Command):
     pass
 
-class text(Command):
+class text(BoxCommand):
     args = 'self'
 
 # Math Style
